@@ -478,6 +478,14 @@ fn catalogue() -> Vec<Value> {
     for m in 0..16 {
         c.push(with(wgen(), &[("flags", json!(flags_of(m)))]));
     }
+    // ... and every one of the 256 flag bytes: the bits the verifier has no business with must not change its verdict
+    for x in 1..256i64 {
+        if x & !(XMASK as i64) == 0 {
+            for m in 0..16 {
+                c.push(with(wgen(), &[("flags", json!(flags_of(m))), ("xbits", json!(x))]));
+            }
+        }
+    }
     for t in &TYPES[1..] {
         c.push(with(wgen(), &[("type", json!(t))]));
     }
